@@ -58,8 +58,16 @@ SameValue == {<<1, 2, 3>>, <<3, 2, 1>>, <<2, 1, 3>>, <<4, 5, 6>>, <<6, 4, 5>>, <
 TupleCases == {[pos |-> "tuple", q |-> TupleCase(<<Pool[i], Pool[j]>>), support |-> "MUST_ACCEPT"] : i, j \in DOMAIN Pool}
          \cup {[pos |-> "tuple", q |-> TupleCase([k \in 1..3 |-> Pool[t[k]]]), support |-> "MUST_ACCEPT"] : t \in SameValue}
 
+\* two bank names in ONE query, same collection kind: each retrieval must ask for its own bank
+BankPool == {"a", "Z", "a.QUOTE.a", "BSL.BSL.QUOTE", "a.Z", "Z.a"}
+BankPairCase(s1, s2) == T0("Select", "e", "", 0, <<DSt, T0("Tuple", "", "", 2,
+                            <<T0("Count", "", "", 0, <<T0("Coll", "A", s1, 0, <<Ev>>)>>),
+                              T0("Count", "", "", 0, <<T0("Coll", "A", s2, 0, <<Ev>>)>>)>>)>>)
+BankPairCases == {[pos |-> "bankpair", q |-> BankPairCase(p[1], p[2]), support |-> "MUST_ACCEPT"] :
+                    p \in {p \in BankPool \X BankPool : p[1] # p[2]}}
+
 Cases ==
-     TupleCases \cup
+     TupleCases \cup BankPairCases \cup
      {[pos |-> "value", q |-> ValueCase(IntLits[i].kind, IntLits[i].text), support |-> IntLits[i].support] : i \in DOMAIN IntLits}
   \cup {[pos |-> "value", q |-> ValueCase("float", FloatLits[i].text), support |-> FloatLits[i].support] : i \in DOMAIN FloatLits}
   \cup {[pos |-> "value", q |-> ValueCase("bool", b), support |-> "MUST_ACCEPT"] : b \in {"True", "False"}}
